@@ -29,6 +29,9 @@ def plan(tier: str, seed: int) -> List[Dict[str, Any]]:
     n_mut, cases = (8, 1200) if tier == 'quick' else (32, 12000)
     for i in range(n_mut):
         out.append({'kind': 'mutate', 'seed': seed, 'shard': i, 'cases': cases, 'timeout_s': 1500 if tier == 'quick' else 7200})
+    # the same guarantees under an optimising interpreter (python -O strips assert statements and sets __debug__ to False)
+    for spec in out[3::4]:
+        spec['env'] = {'PYTHONOPTIMIZE': '1'}
     return out
 
 
